@@ -40,6 +40,7 @@ def psm_table(
     best_feature_desc=True,
     dup_scan_across_files=True,
     with_rid=True,
+    share_scan=0.0,
 ):
     """Return a dict: df (file columns in file order), truth (is_correct per row),
     spectrum key columns, feature names.
@@ -70,9 +71,21 @@ def psm_table(
     files = (spec % n_files)
     expmass_by_spec = np.round(500 + rng.random(n_spectra) * 1500, 4)
     rt_by_spec = np.round(rng.random(n_spectra) * 7200, 3)
+    if share_scan > 0 and "ExpMass" in key_cols:
+        # precursor-charge hypotheses: runs of 2+ *different* spectra (different ExpMass) share file, scan number and
+        # retention time, i.e. every spectrum-key column except the last
+        grp = np.cumsum(np.r_[True, rng.random(n_spectra - 1) >= share_scan]) - 1
+        scan = 1000 + grp if dup_scan_across_files else 1000 + grp + file_index * 100000
+        files = grp % n_files
+        rt_by_spec = rt_by_spec[grp]
+        spec_for_scan = grp
+    else:
+        spec_for_scan = spec
     if "filename" in key_cols and n_files > 1 and dup_scan_across_files:
         # same scan number in different files is a different spectrum
-        scan = 1000 + (spec // n_files)
+        scan = 1000 + (spec_for_scan // n_files)
+    if share_scan > 0 and "ExpMass" in key_cols:
+        scan, files = scan[spec], files[spec]
     df = {}
     df["SpecId"] = [f"f{file_index}_psm{i}" for i in range(n)]
     if label_enc == "pm1":
